@@ -129,7 +129,7 @@ static void enumerateAll(const std::function<void(const Spec &)> &f) {
   auto emit = [&](const Spec &base, bool allMags, bool allStages, bool devs) {
     // the shapes with 16+ unit cells or 20+ rows are explored unscaled and at 2^14 only: the anisotropic magnitudes turn
     // them into grids of a million bins, which terminate but take minutes (slow, not a violation)
-    bool big = base.cells.size() >= 16 || base.rows.size() >= 20;
+    bool big = base.cells.size() >= 12 || base.rows.size() >= 20;
     for (size_t mi = 0; mi < mags.size(); ++mi) {
       if (big && mi != 0 && mi != 2) continue;
       if (!allMags && mi != 0 && mi != 2 && mi != 5) continue;
@@ -161,6 +161,24 @@ static void enumerateAll(const std::function<void(const Spec &)> &f) {
   }
   // 1. hand-written degenerate shapes: every magnitude, every stage, every single parameter deviation
   for (auto &s : shapeAlphabet()) emit(s, true, true, true);
+  // 1b. medium-size family (12..40 cells on 4..10 rows): every 24th member (thorough: 8th), every stage, unscaled and at 2^14;
+  //     every third of those also with multi-row reordering and wide windows
+  {
+    MediumCfg mc;
+    mc.stride = gThorough ? 8 : 24;
+    int k = 0;
+    enumerateMedium(mc, [&](const Spec &s) {
+      emit(s, false, true, false);
+      if (k++ % 3 == 0) {
+        Spec v = s;
+        v.devs.push_back({F_reorderingMaxNbCells, 4});
+        v.devs.push_back({F_reorderingNbRows, 2});
+        v.devs.push_back({F_shiftMaxNbCells, 30});
+        v.devs.push_back({F_squareReoptSize, 3});
+        for (int stage : {0, 2, 3}) { Spec t = v; t.aux = stage; f(t); }
+      }
+    });
+  }
   // 2. global-placement alphabet
   {
     int i = 0;
